@@ -114,12 +114,15 @@ func (a *A) accumulator(rule string) *accAnchors {
 	return x
 }
 
-// C06 runs the SSA clauses (b)–(e) of property C06 (clause (a) is tables.T3).
+// C06 runs the SSA clauses (b)–(g) of property C06 (clause (a) is tables.T3; (f), (g) live in extra.go).
 func (a *A) C06() {
 	a.dupEdge()
 	a.noSplice()
 	a.filtersFirst()
 	a.discOnLoadedQueue()
+	a.discTestUnconditional()
+	a.flushAfterDiscontinuity()
+	a.pusiReturnsPrevious()
 }
 
 // (b) on the isSameAsPrevious-true edge add returns an empty result and leaves b.q as it was.
@@ -310,11 +313,13 @@ func (a *A) filtersFirst() {
 		var why []string
 		ok := false
 		for _, ci := range ifs {
-			drop, dropExcl := ci.when(fl.dropWhen)
+			// the drop block may be shared (`if tei || !hasPayload { return }`): everything reachable from
+			// it is checked to be effect-free below, whoever else enters it
+			drop, _ := ci.when(fl.dropWhen)
 			pass, passExcl := ci.when(!fl.dropWhen)
 			var bad []string
-			if !dropExcl || !passExcl {
-				bad = append(bad, "the test's edges are shared with other paths")
+			if !passExcl {
+				bad = append(bad, "the test's pass edge is shared with other paths")
 			}
 			for _, acc := range accesses {
 				if !pass.Dominates(acc.Block()) {
